@@ -139,6 +139,13 @@ def run(ctx: Ctx):
                      f'{lg}: a propositional proof hit a limit (premature={o["premature"]}, quit flags={o["quitflags"]})',
                      dict(argument=tabrun.arg_text(j), steps=o['nsteps']), found_input=True)
             continue
+        if any(o.get('wlimits') or []):
+            # "terminates on its own": the library's own MaxWorlds helper says an open branch of the finished proof is
+            # over its world limit — the search was stopped by the (silent) world limit, not by having nothing left to do
+            stats['world-limit-reached'] += 1
+            ctx.fail(f'C03:limit:{lg}:world-limit', f'{lg}: a propositional proof ran into the world limit (MaxWorlds.is_exceeded on an open '
+                     f'branch of the finished tableau; {o["nsteps"]} steps)', dict(argument=tabrun.arg_text(j), steps=o['nsteps']), found_input=True)
+            continue
         accepted = r.startswith('ok') and r.split(' :: ', 1)[1] == o['final']
         if not accepted:
             stats['replay-rejected'] += 1
